@@ -36,6 +36,42 @@ def cases(rng, which, count):
             elif w == "consensus":
                 fl = [f for f in ("--ignore-gaps", "--ignore-n") if rng.random() < 0.4]
                 yield Case("cli_lib", [st, "consensus"] + fl, True, "cli-consensus")
+            elif w == "mask":
+                fl = []
+                rep = rng.choice([None, "AMBIG", "GAP", "MAJ", "X", "n"])
+                if rep:
+                    fl += ["--replace", rep]
+                if rng.random() < 0.3:
+                    fl.append("--no-gaps")
+                yield Case("cli_lib", [st, "mask", "-s", str(rng.randint(0, L)), "-l", str(rng.randint(0, L + 1))] + fl, True, "cli-mask")
+                fl = []
+                if rng.random() < 0.5:
+                    fl += ["--at-most", str(rng.randint(0, 3))]
+                if rep:
+                    fl += ["--replace", rep]
+                yield Case("cli_lib", [st, "mask", "--unique"] + fl, True, "cli-mask-unique")
+            elif w == "dedup":
+                rr = rows + [("d%d" % i, rng.choice(rows)[1]) for i in range(rng.randint(0, 3))]
+                if rng.random() < 0.5 and rr:
+                    k = rng.randrange(len(rr))
+                    rr.append(("g", rr[k][1].replace("N", "-")))
+                rng.shuffle(rr)
+                yield Case("cli_lib", [esc(fasta(rr)), "dedup"] + (["--n-as-gap"] if rng.random() < 0.5 else []), True, "cli-dedup")
+                cols = [rng.choice(["A" * n, "C" * n, "".join(rng.choice("ACGT-") for _ in range(n))]) for _ in range(L)]
+                cr = [("s%d" % i, "".join(c[i] for c in cols)) for i in range(n)]
+                yield Case("cli_lib", [esc(fasta(cr)), "compress"], True, "cli-compress")
+            elif w == "sort":
+                rr = list(rows)
+                rng.shuffle(rr)
+                yield Case("cli_lib", [esc(fasta([("%s%s" % (rng.choice("bAaZ_"), nm), s) for nm, s in rr])), "sort"], True, "cli-sort")
+            elif w == "translate":
+                fl = []
+                if rng.random() < 0.6:
+                    fl += ["--phase", str(rng.randint(0, 2))]
+                if rng.random() < 0.5:
+                    fl += ["--genetic-code", rng.choice(["standard", "mitov", "mitoi"])]
+                nt = [(nm, "".join(rng.choice("ACGTacgtN-") for _ in range(L))) for nm, _ in rows]
+                yield Case("cli_lib", [esc(fasta(nt)), "translate"] + fl, True, "cli-translate")
             elif w == "clean":
                 cut = rng.choice(["0", "0.25", "0.5", "0.75", "1", "0.1", "0.3"])
                 fl = []
